@@ -82,7 +82,7 @@ Definition diag (c : case) : list bool :=
       let l := ori_dot_outer_lazy FOps k ss so X Y G in
       let ae := awo_eager_with FOps (cang FOps) ss so X Y G in
       let al := awo_lazy_with FOps (cang FOps) k ss so X Y G in
-      (* a repaired lazy path would agree with the (self-first, flag-aware) specification instead *)
+      (* a lazy path repaired w.r.t. improper flags would agree with the flag-aware specification instead *)
       let sp := ori_dot_outer_spec FOps (sym_dot_eager FOps) ss so X Y G in
       let asp := ori_dot_outer_spec FOps (fun G' m => cang FOps (sym_dot_eager FOps G' m)) ss so (drop_flags X) Y G in
       [ shape_eqb (fst e) sE; lclose (snd e) E;
@@ -185,7 +185,7 @@ def run(tier, seed, only=None):
     if not ck.step_sanity():
         return ck.finish()
     ck.step_prove(["quatkernels", "conversions", "c18"], "Props/C18.v", extra=["Model/C18Model.vo", "Model/RotArr.vo"])
-    n = 160 if tier == "quick" else 1600
+    n = 100 if tier == "quick" else 1200
     cases, fails, strata = [], [], {}
     # regression corpus first
     for f in sorted(glob.glob(os.path.join(VERIF, "corpus", PROP, "*.json"))):
